@@ -157,6 +157,11 @@ func (ivd *ItemVariationData) parseDeltaSets(src []byte) error {
 	if shortDeltaCount > regionIndexCount {
 		return errors.New("invalid item variation data subtable")
 	}
+	if rowLength == 0 {
+		// the item count is not bounded by the length of the table: do not allocate the (empty) rows,
+		// [ItemVarStore.GetDelta] is 0 for every item
+		return nil
+	}
 	ivd.DeltaSets = make([][]int16, itemCount)
 	for i := range ivd.DeltaSets {
 		vi := make([]int16, regionIndexCount)
